@@ -175,7 +175,12 @@ func ruleText(rs []Rule) string {
 			fmt.Fprintf(&sb, "  if doFault(\"%s\") {\n    prefail(\"%s\")\n    %s\n  }\n", n, n, faultSnippets[r.Tpl[2:]])
 		}
 		fmt.Fprintf(&sb, "  if doTag(\"%s\") { stag.StopTag = true }\n", n)
-		fmt.Fprintf(&sb, "  if doFail(\"%s\") { boom(\"%s\") }\n", n, n)
+		if snip, ok := faultSnippets[r.FK]; ok {
+			// the rule fails through a real fault of this class instead of a panicking function
+			fmt.Fprintf(&sb, "  if doFail(\"%s\") {\n    prefail(\"%s\")\n    %s\n  }\n", n, n, snip)
+		} else {
+			fmt.Fprintf(&sb, "  if doFail(\"%s\") { boom(\"%s\") }\n", n, n)
+		}
 		fmt.Fprintf(&sb, "  if doRet(\"%s\") { v = leaveRet(\"%s\")\n return v }\n", n, n)
 		fmt.Fprintf(&sb, "  if doRetNil(\"%s\") { leaveNil(\"%s\")\n return }\n", n, n)
 		fmt.Fprintf(&sb, "  if doFailRet(\"%s\") { return boom(\"%s\") }\n", n, n)
@@ -221,7 +226,7 @@ func apis() map[string]interface{} {
 		"doFault": func(n string) bool { return cur.beh[n] == "fault" },
 		"prefail": func(n string) {
 			// the fault follows: the end of this execution is logged as failed before it happens
-			cur.o.EmitEnd(obs.Event{"ev": "end", "r": n, "out": "fail", "val": "", "st": false})
+			cur.o.EmitEnd(obs.Event{"ev": "end", "r": n, "out": "fail", "val": "", "st": cur.tagset[n]})
 		},
 		"doFail":    func(n string) bool { return cur.beh[n] == "fail" },
 		"doRet":     func(n string) bool { return cur.beh[n] == "ret" },
@@ -460,7 +465,7 @@ func runSession(s *Session, quiet time.Duration, seed int64, callTimeout time.Du
 			return all, false
 		}
 		// the return event takes its place in the log before any gate is opened again
-		ret := obs.Event{"ev": "return", "err": oc.err != nil, "keys": keysOf(oc.keys), "panic": oc.panicv != nil}
+		ret := obs.Event{"ev": "return", "err": oc.err != nil, "keys": keysOf(oc.keys), "panic": oc.panicv != nil, "twin": c.Twin}
 		if oc.err != nil {
 			msg := oc.err.Error()
 			if len(msg) > 200 {
